@@ -82,6 +82,7 @@ def run(tier, seed):
     else:
         series = tq.with_patch_options(tq.enumerate_series(3, 1, allow_after_failure=1), 1) + tq.enumerate_series(2, 2, allow_after_failure=1)
         cfgs = [{'threads': t, 'backup': b, 'quiet': True, 'extra': e} for t in (1, 2) for e in ([], ['--mmap']) for b in ('never', 'always')]
+    series = series + tq.special_series(m0)
     tasks = [(m0, s, c) for s in series for c in cfgs]
     acc = wsweep.Acc(res)
     for i, r in enumerate(wsweep.pmap(case, tasks)):
